@@ -96,11 +96,14 @@ C02_CyclicNeverRuns ==
      /\ \A t \in TaskIds(j) : Run(j, t).begun = 0
      /\ (st.phase = "drained" /\ Defined(st.jobs[j].p) /\ st.jobs[j].listed) => (st.jobs[j].canceled /\ (st.jobs[j].lastErr # "" \/ UserCause(j) \/ ~st.jobs[j].started))
 
+StartFailed(s, j) == s.jobs[j].listed /\ s.jobs[j].canceled /\ ~s.jobs[j].started /\ s.jobs[j].lastErr \notin {"", "canceled"}
 NoTrouble(j) == /\ st.stop[j].n = 0 /\ st.ack[j].n = 0 /\ ~st.jobs[j].rst /\ ~st.jobs[j].lost
                 /\ \A t \in TaskIds(j) : Run(j, t).outcome \in {"none", "ok"} \/ (Run(j, t).outcome = "fail" /\ V(j).tasks[t].allow)
 C02_AcyclicCompletes ==
   \A j \in J : (~V(j).cyclic /\ st.jobs[j].bad = "none") =>
-     /\ st.jobs[j].lastErr \notin {"cycle", "reserved"}
+     \* it is not refused at its start (a start that fails leaves the job canceled, never started, with the error of the attempt -
+     \* whatever the wording of that error)
+     /\ ~StartFailed(st, j)
      /\ (st.phase = "drained" /\ st.jobs[j].listed /\ st.jobs[j].started /\ NoTrouble(j)) =>
            (Plain(st, j) /\ \A t \in TaskIds(j) : Run(j, t).begun = 1)
 
@@ -175,7 +178,7 @@ Observed(p) ==
        ELSE IF st.jobs[n].bad # "none" \/ V(n).cyclic
             \* a job whose graph cannot be built is canceled by the attempt to start it (and that attempt processes the wait
             \* list, which may start - or fail to start - other waiting jobs)
-            THEN (IF st.jobs[n].canceled /\ st.jobs[n].lastErr \in {"reserved", "cycle"} THEN "start"
+            THEN (IF StartFailed(st, n) THEN "start"
                   ELSE IF Waiting(st, n) /\ NewlyCanceled = {} THEN "append"
                   ELSE IF Waiting(st, n) THEN "replace" ELSE "other")
        ELSE IF st.jobs[n].started /\ NewlyCanceled = {} THEN "start"
